@@ -185,7 +185,7 @@ def special_cases():
 
 
 def run(ctx):
-    n = 700 if ctx.tier == "quick" else 15000
+    n = 4000 if ctx.tier == "quick" else 40000
     nchunks = max(1, n // 40)
     chunks = ctx.pmap("harness.props.c01", "gen_cases", [(ctx.seed, k, 40, ctx.tier) for k in range(nchunks)])
     items = [it for ch in chunks for it in ch]
